@@ -13,6 +13,7 @@ import (
 	"io"
 	"sort"
 	"sync"
+	"sync/atomic"
 	"time"
 
 	mqtt "github.com/at-wat/mqtt-go"
@@ -54,6 +55,15 @@ func (v *rsFineVariant) describe() map[string]interface{} {
 func rsRunFine(v *rsFineVariant) (rsObs, string) {
 	sc := &rsScenario{MethodB: v.MethodB, Faults: v.Faults}
 	var obs rsObs
+	if atomic.LoadInt32(&rsStuck) >= 40 {
+		obs.Stuck = "not run: 40 scenarios of this run got stuck already"
+		return obs, "[]"
+	}
+	defer func() {
+		if obs.Stuck != "" {
+			atomic.AddInt32(&rsStuck, 1)
+		}
+	}()
 	b := newRsBroker(sc)
 	dialReq := make(chan struct{}, 1)
 	dialGo := make(chan struct{}, 1)
@@ -533,7 +543,12 @@ func rsRunFine(v *rsFineVariant) (rsObs, string) {
 	}
 	close(b.quit)
 	dctx, dcancel := context.WithTimeout(context.Background(), 3*time.Second)
-	_ = cli.Disconnect(dctx)
+	dd := make(chan struct{})
+	go func() { _ = cli.Disconnect(dctx); close(dd) }()
+	select {
+	case <-dd:
+	case <-time.After(5 * time.Second): // Disconnect stuck behind a lock: leave it behind
+	}
 	dcancel()
 	return obs, cListInline(labels)
 }
